@@ -32,20 +32,46 @@ theorem pkTaken_false {s : Sess} {pk : Option KeyVal} (h : pkTaken s pk = false)
   intro k e; subst e
   simpa [pkTaken] using h
 
+theorem create_eq_keyTaken {sch : Schema} {s : Sess} {c : Nat} {pk : Option KeyVal} {vals : List (Option Int)} {lf : Bool}
+    (h : keyTaken sch s (fun a => Slot.val ((vals[a]?).join)) = true) :
+    create sch s c pk vals lf = (s, { err := some .cacheIndex }) := by
+  simp [create, h]
+
+theorem create_eq_pkTaken {sch : Schema} {s : Sess} {c : Nat} {pk : Option KeyVal} {vals : List (Option Int)} {lf : Bool}
+    (h1 : keyTaken sch s (fun a => Slot.val ((vals[a]?).join)) = false) (h2 : pkTaken s pk = true) :
+    create sch s c pk vals lf = (s, { err := some .cacheIndex }) := by
+  simp [create, h1, h2]
+
+theorem create_eq_late {sch : Schema} {s : Sess} {c : Nat} {pk : Option KeyVal} {vals : List (Option Int)}
+    (h1 : keyTaken sch s (fun a => Slot.val ((vals[a]?).join)) = false) (h2 : pkTaken s pk = false) :
+    create sch s c pk vals true = ({ s with pkIx := undoIdmap (s.pkIx.setOpt pk s.n) pk s.n }, { err := some .constraint }) := by
+  simp [create, h1, h2]
+
+theorem create_eq_ok {sch : Schema} {s : Sess} {c : Nat} {pk : Option KeyVal} {vals : List (Option Int)}
+    (h1 : keyTaken sch s (fun a => Slot.val ((vals[a]?).join)) = false) (h2 : pkTaken s pk = false) :
+    create sch s c pk vals false =
+      ({ n := s.n + 1,
+         obj := setObj s.obj s.n { cls := c, status := .created, pk := pk, vals := fun a => Slot.val ((vals[a]?).join),
+                                   dbvals := fun _ => .notLoaded, rbits := fun _ => false, wbits := fun _ => false, isNew := true, isSeed := false },
+         pkIx := (s.pkIx.setOpt pk s.n).setOpt pk s.n,
+         ixs := fun i => (s.ixs i).setOpt (kv sch (fun a => Slot.val ((vals[a]?).join)) i) s.n,
+         queue := s.queue ++ [s.n] }, { yield := some s.n }) := by
+  simp [create, h1, h2]
+
 theorem create_inv {sch : Schema} {s : Sess} (hI : Inv sch s) (c : Nat) (pk : Option KeyVal) (vals : List (Option Int)) (lf : Bool) :
     Inv sch (create sch s c pk vals lf).1 := by
-  unfold create
-  simp only
-  by_cases hkt : keyTaken sch s (fun a => Slot.val ((vals[a]?).join)) = true
-  · simp only [hkt, if_true]; exact hI
-  · by_cases hpt : pkTaken s pk = true
-    · simp only [hkt, hpt, if_true, if_false]; exact hI
-    · simp only [hkt, hpt, if_false]
-      have hpknone := pkTaken_false (Bool.eq_false_iff.mpr hpt)
-      have hfresh := keyTaken_false (Bool.eq_false_iff.mpr hkt)
-      by_cases hlf : lf = true
-      · -- the constructor failed late: the identity map's undo closure took the entry out again
-        simp only [hlf, if_true]
+  cases hkt : keyTaken sch s (fun a => Slot.val ((vals[a]?).join)) with
+  | true => rw [create_eq_keyTaken hkt]; exact hI
+  | false =>
+  cases hpt : pkTaken s pk with
+  | true => rw [create_eq_pkTaken hkt hpt]; exact hI
+  | false =>
+      have hpknone := pkTaken_false hpt
+      have hfresh := keyTaken_false hkt
+      cases lf with
+      | true =>
+        -- the constructor failed late: the identity map's undo closure took the entry out again
+        rw [create_eq_late hkt hpt]
         apply inv_congr _ hI
         refine ⟨rfl, ?_, IxEq.refl _, fun _ _ => ObjSame.refl _ _⟩
         intro k
@@ -57,7 +83,8 @@ theorem create_inv {sch : Schema} {s : Sess} (hI : Inv sch s) (c : Nat) (pk : Op
           by_cases e : k = k0
           · subst e; simp [hpknone k rfl]
           · simp [e]
-      · simp only [hlf, if_false]
+      | false =>
+        rw [create_eq_ok hkt hpt]
         constructor
         · intro k x hg
           simp only [Index.get_setOpt] at hg
@@ -106,19 +133,21 @@ theorem create_inv {sch : Schema} {s : Sess} (hI : Inv sch s) (c : Nat) (pk : Op
 theorem create_yield {sch : Schema} {s : Sess} (c : Nat) (pk : Option KeyVal) (vals : List (Option Int)) (lf : Bool) (x : ObjId)
     (h : (create sch s c pk vals lf).2.yield = some x) :
     x = s.n ∧ ((create sch s c pk vals lf).1.obj x).pk = pk ∧ ∀ k, pk = some k → (create sch s c pk vals lf).1.pkIx.get k = some x := by
-  unfold create at h ⊢
-  simp only at h ⊢
-  by_cases hkt : keyTaken sch s (fun a => Slot.val ((vals[a]?).join)) = true
-  · simp [hkt] at h
-  · by_cases hpt : pkTaken s pk = true
-    · simp [hkt, hpt] at h
-    · by_cases hlf : lf = true
-      · simp [hkt, hpt, hlf] at h
-      · simp only [hkt, hpt, hlf, if_false, Option.some.injEq] at h ⊢
-        subst h
-        refine ⟨rfl, by simp, ?_⟩
-        intro k e; subst e
-        simp [Index.get_setOpt]
+  cases hkt : keyTaken sch s (fun a => Slot.val ((vals[a]?).join)) with
+  | true => rw [create_eq_keyTaken hkt] at h; cases h
+  | false =>
+  cases hpt : pkTaken s pk with
+  | true => rw [create_eq_pkTaken hkt hpt] at h; cases h
+  | false =>
+    cases lf with
+    | true => rw [create_eq_late hkt hpt] at h; cases h
+    | false =>
+      rw [create_eq_ok hkt hpt] at h ⊢
+      simp only [Option.some.injEq] at h
+      subst h
+      refine ⟨rfl, by simp, ?_⟩
+      intro k e; subst e
+      simp [Index.get_setOpt]
 
 /-! ## the identity map for loaded rows -/
 
@@ -139,7 +168,7 @@ theorem idmapLoaded_inv {sch : Schema} {s s1 : Sess} {c : Nat} {pk : KeyVal} {o 
         · split at h
           · cases h
           · cases h
-            refine ⟨inv_congr (sameKeys_setObj s x _ s.queue ⟨rfl, rfl, rfl, fun _ => rfl⟩) hI, h1, by simpa using h2, by simpa using h3, hg, Nat.le_refl _⟩
+            refine ⟨inv_congr (sameKeys_setObj s _ _ s.queue ⟨rfl, rfl, rfl, fun _ => rfl⟩) hI, h1, by simpa using h2, by simpa using h3, hg, Nat.le_refl _⟩
   | none =>
     simp only [hg] at h
     cases h
@@ -191,14 +220,19 @@ theorem dbSet_inv {sch : Schema} {s : Sess} (hI : Inv sch s) {o : ObjId} (ho : o
       ((dbSet sch s o rowv u).1.obj o).pk = (s.obj o).pk ∧ ((dbSet sch s o rowv u).1.obj o).status = (s.obj o).status := by
   unfold dbSet at hne ⊢
   simp only at hne ⊢
-  split
-  · refine ⟨inv_congr (sameKeys_setObj s o _ s.queue ⟨rfl, rfl, rfl, fun _ => rfl⟩) hI, rfl, rfl, by simp, by simp⟩
-  · split
-    · rename_i hok
-      refine ⟨?_, rfl, rfl, by simp, by simp⟩
-      exact inv_updKeys hI ho _ hlive rfl (by simpa using hlive) s.queue hok
-    · rename_i hfind hok
-      simp [hfind, hok] at hne
+  cases hf : (List.range sch.nattrs).find? (fun a => dbEff sch (s.obj o) rowv u a && (s.obj o).rbits a) with
+  | some a0 =>
+    simp only [hf]
+    refine ⟨inv_congr (sameKeys_setObj s o _ s.queue ⟨rfl, rfl, rfl, fun _ => rfl⟩) hI, rfl, rfl, by simp [dbObjStop], by simp [dbObjStop]⟩
+  | none =>
+    simp only [hf] at hne ⊢
+    cases hok : (updKeysGo o (kv sch (s.obj o).vals) (kv sch (dbNewVals sch (s.obj o) rowv u)) (allKeys sch) ⟨s.ixs, [], true⟩).ok with
+    | false => simp [hok] at hne
+    | true =>
+      simp only [if_true]
+      refine ⟨?_, rfl, rfl, by simp [dbObjDb], by simp [dbObjDb]⟩
+      exact inv_updKeys hI ho { dbObjDb sch (s.obj o) rowv u with vals := dbNewVals sch (s.obj o) rowv u } hlive rfl
+        (by simpa [dbObjDb] using hlive) s.queue hok
 
 /-! ## load / seed -/
 
@@ -286,45 +320,58 @@ theorem load_yield {sch : Schema} {s : Sess} (hI : Inv sch s) (row : Row) (used 
 
 /-! ## assignment -/
 
+theorem chObj_fields (ob : Obj) (ch : List (Nat × Option Int)) (h : ob.status.isDel = false) :
+    (chObj ob ch).pk = ob.pk ∧ (chObj ob ch).status.isDel = false ∧ (chObj ob ch).vals = chVals ob ch := by
+  unfold chObj; split
+  · exact ⟨rfl, h, rfl⟩
+  · exact ⟨rfl, rfl, rfl⟩
+
 theorem setAttrs_inv {sch : Schema} {s : Sess} (hI : Inv sch s) (o : ObjId) (ch : List (Nat × Option Int)) :
     Inv sch (setAttrs sch s o ch).1 := by
   unfold setAttrs
   simp only
-  split
-  · exact hI
-  · rename_i ho
-    have ho : o < s.n := Nat.lt_of_not_le ho
-    split
-    · exact hI
-    · rename_i hdel
-      have hlive : (s.obj o).status.isDel = false := by simpa using hdel
-      split
-      · rename_i hok
-        refine inv_updKeys hI ho _ hlive ?_ ?_ _ hok
-        · simp only; split <;> rfl
-        · simp only; split
-          · exact hlive
-          · simp [Status.isDel]
-      · -- CacheIndexError: the undo list is run
+  by_cases ho : o ≥ s.n
+  · simp only [ho, if_true]; exact hI
+  · simp only [ho, if_false]
+    have ho' : o < s.n := Nat.lt_of_not_le ho
+    cases hdel : (s.obj o).status.isDel with
+    | true => simp only [if_true]; exact hI
+    | false =>
+      simp only [Bool.false_eq_true, if_false]
+      obtain ⟨f1, f2, f3⟩ := chObj_fields (s.obj o) ch hdel
+      cases hok : (updKeysGo o (kv sch (s.obj o).vals) (kv sch (chVals (s.obj o) ch)) (allKeys sch) ⟨s.ixs, [], true⟩).ok with
+      | true =>
+        simp only [if_true]
+        have hok' : (updKeysGo o (kv sch (s.obj o).vals) (kv sch (chObj (s.obj o) ch).vals) (allKeys sch) ⟨s.ixs, [], true⟩).ok = true := by
+          rw [f3]; exact hok
+        have := inv_updKeys hI ho' (chObj (s.obj o) ch) hdel f1 f2
+          (if (s.obj o).isNew || decide ((s.obj o).status = .modified) then s.queue else s.queue ++ [o]) hok'
+        rw [f3] at this
+        exact this
+      | false =>
+        -- CacheIndexError: the undo list is run
+        simp only [Bool.false_eq_true, if_false]
         apply inv_congr _ hI
-        exact ⟨rfl, fun _ => rfl, undo_restores hI ho hlive _, fun _ _ => ObjSame.refl _ _⟩
+        exact ⟨rfl, fun _ => rfl, undo_restores hI ho' hdel _, fun _ _ => ObjSame.refl _ _⟩
 
 /-- a refused assignment changes nothing the invariant (or any key lookup) can see -/
 theorem setAttrs_err_same {sch : Schema} {s : Sess} (hI : Inv sch s) (o : ObjId) (ch : List (Nat × Option Int))
     (h : (setAttrs sch s o ch).2.err ≠ none) : SameKeys sch s (setAttrs sch s o ch).1 ∧ (setAttrs sch s o ch).1.obj = s.obj := by
   unfold setAttrs at h ⊢
   simp only at h ⊢
-  split
-  · exact ⟨SameKeys.refl _ _, rfl⟩
-  · rename_i ho
+  by_cases ho : o ≥ s.n
+  · simp only [ho, if_true]; exact ⟨SameKeys.refl _ _, rfl⟩
+  · simp only [ho, if_false] at h ⊢
     have ho' : o < s.n := Nat.lt_of_not_le ho
-    split
-    · exact ⟨SameKeys.refl _ _, rfl⟩
-    · rename_i hdel
-      have hlive : (s.obj o).status.isDel = false := by simpa using hdel
-      split
-      · rename_i hok; simp [ho, hdel, hok] at h
-      · exact ⟨⟨rfl, fun _ => rfl, undo_restores hI ho' hlive _, fun _ _ => ObjSame.refl _ _⟩, rfl⟩
+    cases hdel : (s.obj o).status.isDel with
+    | true => simp only [if_true]; exact ⟨SameKeys.refl _ _, rfl⟩
+    | false =>
+      simp only [hdel, Bool.false_eq_true, if_false] at h ⊢
+      cases hok : (updKeysGo o (kv sch (s.obj o).vals) (kv sch (chVals (s.obj o) ch)) (allKeys sch) ⟨s.ixs, [], true⟩).ok with
+      | true => simp [hok] at h
+      | false =>
+        simp only [Bool.false_eq_true, if_false]
+        exact ⟨⟨rfl, fun _ => rfl, undo_restores hI ho' hdel _, fun _ _ => ObjSame.refl _ _⟩, rfl⟩
 
 /-! ## read, find, proxy: only read bits move -/
 
